@@ -48,6 +48,9 @@ var verifPoolStageFuncs = []struct {
 	{"router.(*bfdSend).Send", VerifPoolStageBFD},
 	{"udpip.(*udpConnection).send", VerifPoolStageSend},
 	{"udpip.(*internalLink).runProcessor", VerifPoolStageILProc},
+	// The harness standing in for a receive loop (Get, fill, hand to a processor queue).
+	{"router.(*VerifPoolDP).VerifPoolInject", VerifPoolStageRecv},
+	{"router.(*VerifPoolDP).VerifPoolReturn", VerifPoolStageRecv},
 }
 
 // VerifPoolEvent is one logged event.
